@@ -152,6 +152,7 @@ func runC06(c *Ctx) {
 	c.Rule("C06-R7", "the line table holds the text the YAML decoder saw", 3)
 	if rnl := c.MustFunc("C06-R7", "internal/parser.ContentReader.readNextLine"); rnl != nil {
 		linesPublishedBlanked(c, "C06-R7", rnl)
+		c10ReadConsumes(c, "C06-R7")
 	}
 	c06WhitespaceIsContent(c)
 	c06OnlyMatchedPositions(c)
